@@ -773,8 +773,12 @@ class TrajectoryStore:
                     'data fields'
                 )
         if len(self._trajectories) > 0:
+            # Compare the sets of field set names: the hash of a trajectory
+            # depends on the order in which its field sets were added, which
+            # differs between trajectories built by users and trajectories
+            # loaded from NetCDF files.
             proto = next(iter(self._trajectories.values()))
-            if hash(trajectory) != hash(proto):
+            if trajectory._fieldsets != proto._fieldsets:
                 raise ValueError(
                     'All trajectories in a TrajectoryStore must have the same '
                     'data fields'
